@@ -117,7 +117,19 @@ def _task(task, p):
         lines = np.array([a + b * days for a, b in ((0, 1), (7, -3), (-100, 12), (5, 0))], dtype=np.int64)
         Xall = np.concatenate([X, lines])
         for cuts in itertools.product([0, 1], repeat=L - 1):
-            labels = np.cumsum([0] + list(cuts)) + 100
+            run_id = np.cumsum([0] + list(cuts))
+            labels = run_id + 100
+            # the same runs with labels that are distinct but not increasing (a period-of-year index across the
+            # new year, descending ids, a zig-zag): only "equal neighbours belong to one period" may matter
+            if sum(cuts) >= 1:
+                for alt in (100 - run_id, np.array([36, 1, 35, 2, 34, 3, 33, 4, 32, 5])[run_id % 10] + 50 * (run_id // 10)):
+                    ra = check_batch(Xall, tmpl, alt, p, "label_spellings")
+                    rb = check_batch(Xall, tmpl, labels, p, "label_spellings")
+                    if ra is not None and rb is not None and not np.array_equal(ra[0], rb[0]):
+                        j = int(np.nonzero((ra[0] != rb[0]).any(axis=1))[0][0])
+                        p.violation("label_spellings", {"x": Xall[j].tolist(), "template": list(tmpl), "labels": alt.tolist()},
+                                    {"kind": "ti", "x": Xall[j].tolist(), "template": list(tmpl), "labels": alt.tolist()},
+                                    f"tinterpolate with labels {alt.tolist()} gives {ra[0][j].tolist()} but the same runs labelled {labels.tolist()} give {rb[0][j].tolist()}")
             r = check_batch(Xall, tmpl, labels, p, sub)
             if (0 in tmpl) and sum(cuts) >= 1:
                 p.count(sub, nontrivial=Xall.shape[0])
